@@ -8,7 +8,8 @@
 From Coq Require Import List Bool Arith String Lia.
 From Cylc Require Import Base.Util Gen.FamTables Model.GraphBase Model.GraphExpr Model.FamTrig
   Model.GraphParse Model.GraphAst Proofs.GraphExprProofs Proofs.FamTrigProofs Proofs.GraphStoreProofs
-  Proofs.GraphPairProofs Proofs.GraphLinesProofs Proofs.GraphSemProofs.
+  Proofs.GraphPairProofs Proofs.GraphLinesProofs Proofs.GraphSemProofs Proofs.GraphPhysProofs
+  Proofs.GraphShapeProofs.
 Import ListNotations.
 
 (* ================= boolean equalities of assertions ================= *)
@@ -174,4 +175,86 @@ Proof.
     + intros n e s He. rewrite (Hh n e s He). now apply ST.
     + apply graph_trigs_nonempty.
     + intros n. rewrite Ht. apply SK.
+Qed.
+
+(* ================= (1)+(2): the whole text ================= *)
+Definition lays_chain (c : chain) (lay : layout) : Prop :=
+  layout_ok (print_chain c) lay = true /\ lay <> [].
+
+Lemma Forall2_map_l {A B C} (R : B -> C -> Prop) (f : A -> B) l1 l2 :
+  Forall2 (fun a c => R (f a) c) l1 l2 -> Forall2 R (map f l1) l2.
+Proof. induction 1; cbn; constructor; auto. Qed.
+
+Lemma Forall2_impl_in {A B} (R R' : A -> B -> Prop) l1 l2 :
+  (forall a b, In a l1 -> R a b -> R' a b) -> Forall2 R l1 l2 -> Forall2 R' l1 l2.
+Proof.
+  intros H HF. induction HF; constructor.
+  - apply H; [now left|assumption].
+  - apply IHHF. intros a b Ha. apply H. now right.
+Qed.
+
+Theorem parse_render g ls pre lys :
+  wf_graph g = true -> eoc_safe g = true -> presents g ls ->
+  Forall2 lays_chain ls lys ->
+  exists st, parse [] (render_text pre lys) = Ok st /\ state_means st g = true.
+Proof.
+  intros Hwf Hsafe Hpres HF.
+  destruct (wf_graph_parts g Hwf) as [Hok _].
+  pose proof (presents_lines_ok g ls Hok Hpres) as Hlok.
+  assert (HF2 : Forall2 lays (map print_chain ls) lys).
+  { apply Forall2_map_l. eapply Forall2_impl_in; [|exact HF].
+    intros c lay Hc [H1 H2]. split; [|split; auto].
+    apply (print_chain_line_ok c (Hlok c Hc)). }
+  pose proof (phys_layer pre lys _ HF2) as Hphys.
+  unfold parse. destruct (phys_lines (render_text pre lys)) as [nb| |]; cbn [bind] in *; try discriminate.
+  rewrite Hphys. cbn [bind].
+  rewrite check_lines_ok.
+  - cbn [bind]. now apply parse_lines_presents.
+  - intros l Hl. apply in_map_iff in Hl. destruct Hl as [c [<- Hc]].
+    destruct (print_chain_line_ok c (Hlok c Hc)) as [Hlo [Ha Ho]]. split; [exact Ha|]. split; [exact Ho|].
+    unfold line_ok in Hlo. apply andb_true_iff in Hlo. destruct Hlo as [_ Hadj]. now apply negb_true_iff in Hadj.
+Qed.
+
+(* ================= the concrete renderers produce presentations ================= *)
+Lemma cut_groups_cut_of : forall gs h acc flags,
+  cut_of h (rev acc ++ gs) (cut_groups h acc gs flags).
+Proof.
+  induction gs as [|g r IH]; intros h acc flags; cbn [cut_groups].
+  - rewrite app_nil_r. constructor.
+  - destruct ((match flags with f :: _ => f | [] => false end) && negb (is_nil r)) eqn:Ec.
+    + apply andb_true_iff in Ec. destruct Ec as [_ Hr]. apply negb_true_iff in Hr.
+      cbn [rev]. apply cut_at; [destruct r; [discriminate|discriminate]|]. apply (IH (group_expr g) []).
+    + specialize (IH h (g :: acc) (match flags with _ :: t => t | [] => [] end)).
+      cbn [rev] in IH. rewrite <- app_assoc in IH. exact IH.
+Qed.
+
+Lemma cut_graph_parts : forall g cuts,
+  exists parts, Forall2 (fun c p => cut_of (ch_head c) (ch_groups c) p) g parts
+                /\ List.concat parts = cut_graph g cuts.
+Proof.
+  induction g as [|c r IH]; intros cuts; [exists []; split; [constructor|reflexivity]|].
+  destruct (IH (match cuts with _ :: t => t | [] => [] end)) as [parts [HF E]].
+  exists (cut_chain c (match cuts with f :: _ => f | [] => [] end) :: parts). split.
+  - constructor; [|exact HF]. unfold cut_chain. apply (cut_groups_cut_of (ch_groups c) (ch_head c) []).
+  - cbn [List.concat cut_graph]. now rewrite E.
+Qed.
+
+Lemma arrange_in sel (ls : graph) : covers sel (List.length ls) = true ->
+  forall c, In c (arrange sel ls) <-> In c ls.
+Proof.
+  intros Hcov c. unfold arrange. rewrite in_flat_map. split.
+  - intros [i [_ H]]. destruct (nth_error ls i) eqn:E; [|destruct H]. destruct H as [<-|[]].
+    eapply nth_error_In; eauto.
+  - intros H. apply In_nth_error in H. destruct H as [i Hi]. exists i. split; [|rewrite Hi; now left].
+    unfold covers in Hcov. rewrite forallb_forall in Hcov.
+    apply (mem_spec Nat.eqb Nat.eqb_eq). apply Hcov. apply in_seq. split; [lia|].
+    cbn. apply nth_error_Some. congruence.
+Qed.
+
+Theorem renderers_present g cuts sel :
+  covers sel (List.length (cut_graph g cuts)) = true ->
+  presents g (arrange sel (cut_graph g cuts)).
+Proof.
+  intros Hcov. destruct (cut_graph_parts g cuts) as [parts [HF E]]. exists parts. split; [exact HF|].
+  intros c. rewrite E. now apply arrange_in.
 Qed.
